@@ -58,11 +58,39 @@ def generate(seed, tier, index):
     if isp == "Poisson" and rs.chance(0.35):
         klass = "large"      # the regime where an implementation is tempted to switch to a normal approximation
     spec["state"] = gen_state(rs, m0.ns, m0.nc, klass)
-    exact_int = all(v == math.floor(v) for v in spec["state"])
+    near_int = isp in ("auto", "redist") and rs.chance(0.08)
+    if near_int:
+        # whole numbers everywhere except one entry per species that misses (or exceeds) a whole number by 1e-10 .. 5e-10
+        # molecule: the real total is that close to an integer, and its floor is still its floor
+        klass = "near_int"
+        st_ = [float(rs.randint(0, 6)) for _ in range(m0.ns * m0.nc)]
+        for s_ in range(m0.ns):
+            i_ = rs.randint(0, m0.nc - 1)
+            st_[s_ * m0.nc + i_] = float(rs.randint(1, 6)) + rs.choice([-1.0, -1.0, 1.0]) * rs.choice([1e-10, 2e-10, 5e-10])
+        spec["state"] = st_
+    default_state = (not near_int) and rs.chance(0.1)
+    if default_state:
+        # no explicit state: density x volume, computed by the front end in whatever units the network / species declare
+        klass = "default_state"
+        spec["state"] = None
+    exact_int = (not default_state) and all(v == math.floor(v) for v in spec["state"])
     # exact-integer workloads: state written in molecules so that no unit round trip touches the integers
-    rich = rs.chance(0.5) and not exact_int
+    rich = (rs.chance(0.5) or default_state) and not exact_int and not near_int
     entry = C.make_script_entry(rs, ru, rk, kind, None, {"steps": (2, 6), "isp": isp, "p_seed": 1.0, "policy": "on_iteration", "tauleap_fractional_none": 1.0},
                                 rich=rich, mild_units=True, spec=spec)
+    if default_state and rs.chance(0.6):
+        # the script is written in the very units system the system object declares for itself (network, species and space
+        # may declare others): the default state, computed in the network's units, still reaches the engine converted
+        sysd_ = entry["system"]
+        uk_ = None
+        for n_ in ("units", "units_system", "units system", "u"):
+            if n_ in sysd_:
+                uk_ = sysd_[n_]
+        sys_eff = uk_ if isinstance(uk_, dict) else (dict(si.DEFAULT_US) if uk_ == "default" else entry["parent_us"])
+        if gen.boundary_numbers_ok(spec, gen.engine_units(sys_eff, kind)):
+            entry["script"] = gen.render_script(ru.sub("sysus"), entry["phys"]["sp"], sys_eff, rich=True)
+            entry["phys"]["us"] = dict(sys_eff)
+            entry["phys"]["eu"] = gen.engine_units(sys_eff, kind)
     if kind != "euler" and entry["phys"]["sp"]["isp"] != isp:
         # gen_script refused 'none' on a non-integer state for a stochastic engine
         isp = entry["phys"]["sp"]["isp"]
@@ -160,6 +188,10 @@ def check(case, results):
                 hi = math.floor(t * (1 + 1e-9) + 1e-12)
                 if meta["exact_int"]:
                     lo = hi = int(round(t))
+                elif meta["klass"] == "near_int":
+                    # written in molecules, at most a few dozen per species: the sum is good to ~1e-14
+                    lo, hi = math.floor(t - 2e-11), math.floor(t + 2e-11)
+                    stats["totals_within_1e-9_of_a_whole_number"] = stats.get("totals_within_1e-9_of_a_whole_number", 0) + 1
                 got = X[:, s, :].sum(axis=1)
                 if np.any((got < lo) | (got > hi)):
                     k = int(np.argmax((got < lo) | (got > hi)))
